@@ -396,8 +396,8 @@ func runC18(p *Prog, r *Report, tier string) {
 			}
 		}
 	}
-	r.floor("scanned-files", nFiles, 60)
-	r.floor("package-level-variables", nGlobals, 35)
+	r.floor("scanned-files", nFiles, 50)
+	r.floor("package-level-variables", nGlobals, 25)
 	r.Extra["package_level_variables"] = nGlobals
 
 	// keeper struct holds only immutable wiring (no maps/slices/caches)
